@@ -45,7 +45,12 @@ func VerifC19_PassHonoursWeights() {
 		wt := int32(ps.weight)
 		np.Spec.Weight = &wt
 		if !ps.ready {
-			np.StatusConditions().SetFalse(status.ConditionReady, "NotReady", "not ready")
+			// not ready: explicitly False, or not resolved yet (Unknown)
+			if verifrt.Choice(name+".notReadyAs", 0, 1) == 0 {
+				np.StatusConditions().SetFalse(status.ConditionReady, "NotReady", "not ready")
+			} else {
+				np.StatusConditions().SetUnknown(status.ConditionReady)
+			}
 		}
 		switch ps.shape {
 		case 1:
